@@ -137,10 +137,24 @@ def run(eng, rep, tier):
     # the continuation flag of the marking loop derives from the results of both processing routines (through whatever
     # locals, tuple unpacking or merged tails the code uses)
     from .flow import name_origins
+    from .flow import helper_origins, helpers_of
     flags = {w.test.id for w in ast.walk(fe.node) if isinstance(w, ast.While) and isinstance(w.test, ast.Name)}
+    for w in ast.walk(fe.node):          # `while True: ... if not flag: break`
+        if isinstance(w, ast.While) and isinstance(w.test, ast.Constant) and w.test.value is True:
+            for st in w.body:
+                if isinstance(st, ast.If) and len(st.body) == 1 and isinstance(st.body[0], ast.Break):
+                    t_ = st.test.operand if isinstance(st.test, ast.UnaryOp) and isinstance(st.test.op, ast.Not) else st.test
+                    if isinstance(t_, ast.Name):
+                        flags.add(t_.id)
     orig = name_origins(fe.node)
-    srcs = {o for f_ in flags for o in orig.get(f_, set())
-            if o in ("call:_duplication_processing", "call:_production_process")}
+    hs = helpers_of(prog, fe)
+    reach = set()
+    for f_ in flags:
+        for o in orig.get(f_, set()):
+            reach.add(o)
+            if o.startswith("call:") and o[5:].startswith("_") and o[5:] in hs:
+                reach |= helper_origins(hs[o[5:]], hs)          # through a private generator / helper
+    srcs = {o for o in reach if o in ("call:_duplication_processing", "call:_production_process")}
     ob.decide("R7", "C17.4", fe, "continues-while-either-changed", len(srcs) >= 2,
               "the continuation flag accumulates the change flags of both kinds",
               "the loop's continuation flag ignores one rule kind: the fixpoint stops early", None, site=site_of(prog, fe, fe.node))
